@@ -24,7 +24,8 @@ type tierPlan struct {
 }
 
 var plans = map[string]map[string]tierPlan{
-	"default": {"quick": {3200, 240}, "thorough": {160000, 2400}},
+	"default": {"quick": {24000, 240}, "thorough": {600000, 2400}},
+	"C08":     {"quick": {8000, 240}, "thorough": {200000, 2400}},
 }
 
 func planFor(prop, tier string) tierPlan {
